@@ -21,7 +21,7 @@ RULE = ('product of kind (6) x spelling (24; plus 4 unusual entry names for the 
         'spellings that do not name x); non-trivial = the run went past argument screening (a trash-dir candidate was '
         'examined or the entry moved), distinct = outcome class x spelling x option x layout')
 
-NAMES_X = ['n.trashinfo', ' s p ', '-dash', 'nl\nx', '100%s %d%', '.dot']
+NAMES_X = ['n.trashinfo', ' s p ', '-dash', 'nl\nx', '100%s %d%', '.dot', '@at', 'cafe\u0301']
 SPELL_X = ['x', '/abs/x', './x', 'd/../x', 'x/', 'x//', './/x', 'sd/../x', 'sdv/../x', 'ld/x', 'ldv/x', 'ld/../w/x']
 SPELL_DOT = ['.', '..', './', '../', 'd/.', 'd/..', 'd/./', 'd/../', 'sd/..', '/mnt/v2', '/mnt/v2/', '', 'nonexistent',
              'd', '../w', 'd/../../w/']          # the last two name the working directory of the process itself (a real entry: must be trashed whole)
@@ -122,6 +122,10 @@ def make_world(kind, lay, name='x'):
     W = scen.base_world(mounts=['/', '/mnt/v1', '/mnt/v2'], cwd=B)
     W.dir(B)
     scen.add_entry(W, B + '/' + name, kind)
+    if name == '@at':
+        W.file(B + '/at', 'd\nsd\n')          # what an @file reader would take for a list of arguments (both name existing entries)
+    if name == 'cafe\u0301':
+        W.file(B + '/caf\u00e9', 'the precomposed twin: another directory entry\n')
     W.dir(B + '/d').file(B + '/d/inner', 'inner of d\n')
     scen.add_entry(W, P + '/x', kind, tag=' (parent copy)')
     W.dir(P + '/other').file(P + '/other/o', 'o\n')
